@@ -837,6 +837,16 @@ def c14_expressions(depth):
                   lambda lf, a=a: lf.trace(fx.add)(a(lf), 's')))
   exprs.append(('raiser(m)', lambda lf: lf.trace(fx.raiser)('m')))
   exprs.append(('key_raiser(k)', lambda lf: lf.trace(fx.key_raiser)('k')))
+  # exception classes a transport or client might treat specially
+  for kind in fx.EXC_KINDS:
+    args = ('m', 7) if kind == 'AppError' else ('m',)
+    exprs.append((f'raise_kind({kind})', lambda lf, kind=kind, args=args:
+                  lf.trace(fx.raise_kind)(kind, *args)))
+    exprs.append((f'add(1,raise_kind({kind}))', lambda lf, kind=kind, args=args:
+                  lf.trace(fx.add)(1, lf.trace(fx.raise_kind)(kind, *args))))
+  for kind in ('TimeoutError', 'LockWaitTimeout', 'RuntimeError'):
+    exprs.append((f'Busy().read({kind})', lambda lf, kind=kind:
+                  lf.trace(fx.Busy)().read(kind)))
   # cached calls (at the root and nested), evaluated twice in a row
   cached = []
   for (na, a) in ints(1)[:6]:
